@@ -40,6 +40,15 @@ func scriptShape(s *BackendScript) string {
 
 func runC03(c *Ctx, i int, r *rand.Rand) {
 	s := genScenario(r, ScenOpts{Variety: true, Timeouts: chance(r, 20), Headers: chance(r, 30)}, fmt.Sprintf("mk%d", i))
+	if chance(r, 12) {
+		// errors the transcoder generates itself in the middle of a body: a small message buffer limit plus a
+		// handler that writes in pieces, so that the limit trips after part of a message was already taken
+		cfg := *s.Cfg
+		cfg.Limit = pick(r, []uint32{48, 200, 1000})
+		s.Cfg = &cfg
+		s.Script.WriteSeg = pick(r, [][]int{{16}, {40, 1 << 20}, {1, 1, 1, 1, 1, 2, 3, 1000}, {5, 7}, nil})
+		c.Count("small-limit-stratum")
+	}
 	e, err := runRPC(s.Cfg, s.Req, s.Script, r, &execOpts{Chunks: chunkPlan(r)})
 	if err != nil {
 		c.Violate(i, "harness/build", err.Error())
